@@ -8,6 +8,7 @@ Each statement has a seeded-change / old-code witness showing it is not vacuous.
 -/
 import CaddyModel.C18.MapH
 import CaddyModel.C18.Headers
+import CaddyModel.C18.RwMods
 
 namespace CaddyModel.C18
 
@@ -242,5 +243,49 @@ theorem headers_rescanning_replaced_values_scans_request_text :
       hdrApplyTo true (fun hs => onlyTemplates (hdrTemplates exHdrOps) (expandKnown (hdrEnv exHdrReq hs))) exHdrOps
         [(str "X-In", [str "{env.VERIF_C18_SECRET}"])] := by
   set_option maxRecDepth 100000 in decide
+
+/-! ### rewrite modifiers -/
+
+/-- **rewrite modifiers: only the configured operands are scanned.** `strip_path_prefix`,
+    `strip_path_suffix`, `uri_substring` and `path_regexp` compute the same URL from a replacer that
+    expands nothing but their configured operands: the request's path (escaped or not) and query string
+    are cleaned, compared, cut and substituted into as bytes and are never expanded, and neither are the
+    results.  Holds for the replacer as a function of the URL the earlier modifiers produced. -/
+theorem rewrite_modifiers_scan_only_configured_operands (R : RwUrl → Bytes → Bytes) (m : RwMods) (u : RwUrl) :
+    rwmApply false R m u = rwmApply false (fun u => onlyTemplates (rwmTemplates m) (R u)) m u := by
+  have h : ∀ (u : RwUrl) (t : Bytes), t ∈ rwmTemplates m → onlyTemplates (rwmTemplates m) (R u) t = R u t :=
+    fun _ _ ht => onlyTemplates_mem ht
+  have e1 : ∀ u, rwmStripPrefix (fun u => onlyTemplates (rwmTemplates m) (R u)) m u = rwmStripPrefix R m u := by
+    intro u; unfold rwmStripPrefix; dsimp only; rw [h u m.stripPrefix (by simp [rwmTemplates])]
+  have e2 : ∀ u, rwmStripSuffix (fun u => onlyTemplates (rwmTemplates m) (R u)) m u = rwmStripSuffix R m u := by
+    intro u; unfold rwmStripSuffix; dsimp only; rw [h u m.stripSuffix (by simp [rwmTemplates])]
+  have e3 : ∀ u, rwmSubstring false (fun u => onlyTemplates (rwmTemplates m) (R u)) m u = rwmSubstring false R m u := by
+    intro u; unfold rwmSubstring; dsimp only
+    rw [h u m.subFind (by simp [rwmTemplates]), h u m.subReplace (by simp [rwmTemplates])]
+    rfl
+  have e4 : ∀ u, rwmPathRegexp (fun u => onlyTemplates (rwmTemplates m) (R u)) m u = rwmPathRegexp R m u := by
+    intro u; unfold rwmPathRegexp; dsimp only; rw [h u m.reReplace (by simp [rwmTemplates])]
+  unfold rwmApply
+  rw [e1, e2, e3, e4]
+
+/-- a change that expands the rewritten query string once more violates the statement:
+    `uri_substring a → b` on `?q={env.VERIF_C18_SECRET}` -/
+def exRwMods : RwMods := ⟨[], [], [97], [98], 0, none, []⟩
+
+theorem rewrite_rescanning_the_query_scans_request_text :
+    rwmApply false (fun u => expandAll (rwmEnv (str "S3CR3T") u)) exRwMods ⟨str "/a", [], str "q={env.VERIF_C18_SECRET}"⟩
+      = ⟨str "/b", [], str "q={env.VERIF_C18_SECRET}"⟩ ∧
+    rwmApply true (fun u => expandAll (rwmEnv (str "S3CR3T") u)) exRwMods ⟨str "/a", [], str "q={env.VERIF_C18_SECRET}"⟩
+      = ⟨str "/b", [], str "q=S3CR3T"⟩ ∧
+    rwmApply true (fun u => expandAll (rwmEnv (str "S3CR3T") u)) exRwMods ⟨str "/a", [], str "q={env.VERIF_C18_SECRET}"⟩ ≠
+      rwmApply true (fun u => onlyTemplates (rwmTemplates exRwMods) (expandAll (rwmEnv (str "S3CR3T") u))) exRwMods
+        ⟨str "/a", [], str "q={env.VERIF_C18_SECRET}"⟩ := by
+  set_option maxRecDepth 100000 in decide
+
+-- non-vacuity: the modifiers do act on request text with braces — prefix `/A` is stripped (case-insensitive)
+-- from `/a/{x}.txt`, whose escaped form is `/a/%7Bx%7D.txt`, and the rest is kept verbatim
+set_option maxRecDepth 100000 in
+example : rwmApply false (fun u => expandAll (rwmEnv [] u)) ⟨str "/A", str ".txt", [], [], 0, none, []⟩ ⟨str "/a/{x}.txt", [], []⟩
+    = ⟨str "/{x}", str "/%7Bx%7D", []⟩ := by decide
 
 end CaddyModel.C18
